@@ -190,21 +190,25 @@ def run_chains(rep, n1=600, n2=2400):
         open(cases, "w").write(out)
         outp = cases + ".out"
         verif.parallel_map_files([PSEARCH, "run", "-E", str(E), "-B", str(B), "-mem", "1"], cases, outp, timeout=3000)
-        rows = []
+        rows = {}
         with open(cases) as fc, open(outp) as fo:
-            for c, o in zip(fc, fo):
+            for idx, (c, o) in enumerate(zip(fc, fo)):
                 p = o.rstrip("\n").split("\t")
-                tk, steps = int(p[1]), int(p[2])
+                try:
+                    tk, steps = int(p[1]), int(p[2])
+                except (IndexError, ValueError):
+                    continue        # a worker died or printed something else: the other stages report that
                 per = 0
                 if p[0] == "MEM":
                     try:
                         per = int(p[3].split(" = ")[1].split(" ")[0])
                     except (IndexError, ValueError):
                         per = 0
-                rows.append((p[0], c.strip(), tk, steps, per, p[3] if len(p) > 3 else ""))
+                rows[idx] = (p[0], c.strip(), tk, steps, per, p[3] if len(p) > 3 else "")
         outs.append(rows)
     hits, worst_mem, worst_steps = [], 0.0, 0.0
-    for a, b in zip(outs[0], outs[1]):
+    for idx in sorted(set(outs[0]) & set(outs[1])):
+        a, b = outs[0][idx], outs[1][idx]
         for r in (a, b):
             if r[0] in ("BUDGET", "SLOW", "PANIC"):
                 hits.append((r[0], r[1], r[5], r[2], r[3]))
